@@ -132,6 +132,27 @@ pub fn explore(ctx: &Ctx, shard: usize, n: usize) -> Report {
     // group letters against the manual's matrices on EVERY single segment the notation can write (base + <= 1 diacritic; + <= 2 in
     // the thorough tier): the two only differ on segments that ordinary words do not contain (a nasalised lateral, a lowered nasal ...)
     let segs = single_segments(ctx.pick(1, 2) as usize);
+    // a group letter with a modifier - also one that contradicts a feature the letter itself fixes (`P:[+delrel]` = affricates): the
+    // modifier overrides; the expansion is the letter's matrix with that feature replaced (or added)
+    let mods_feats = ["cons", "son", "syll", "delrel", "cont", "approx", "nasal", "voice", "lat", "strid"];
+    let mut pairs: Vec<(String, String, String)> = Vec::new();
+    for g in GROUPS { for f in mods_feats { for sg in ['+', '-'] {
+        let m = group_matrix(g); let body = &m[1..m.len() - 1];
+        let mut items: Vec<String> = body.split(", ").map(|x| x.to_string()).collect();
+        if let Some(it) = items.iter_mut().find(|x| &x[1..] == f) { *it = format!("{sg}{f}") } else { items.push(format!("{sg}{f}")) }
+        pairs.push((format!("group-letter:{g}:with-modifier"), format!("{g}:[{sg}{f}] > [+stress]"), format!("[{}] > [+stress]", items.join(", "))));
+    } } }
+    for (pi, (fam, sh, lo)) in pairs.iter().enumerate() {
+        let (Ok(short), Ok(long)) = (compile(&[sh.clone()]), compile(&[lo.clone()])) else { continue };
+        for (k, (t, w)) in segs.iter().enumerate() {
+            if (k + pi) % n != shard || (ctx.quick() && (k + pi) % 3 != 0) { continue }
+            rep.eval(1);
+            let (a, b) = (apply(&short, w), apply(&long, w));
+            let same = match (&a, &b) { (Applied::Ok(x), Applied::Ok(y)) => x == y, (Applied::Err(_), Applied::Err(_)) => true, (Applied::Abort(_), _) | (_, Applied::Abort(_)) => true, _ => false };
+            if !same { let t2 = t.clone(); rep.violation(format!("{fam}:segment-sweep"), || json!({"case": {"family": fam, "short": [sh], "long": [lo], "words": [t2]}, "observed": format!("short: {} / long: {}", a.tag(), b.tag())})); }
+            else if let Applied::Ok(x) = &a { if x != w { rep.nontrivial_enum(1); } }
+        }
+    }
     for g in GROUPS {
         let (Ok(short), Ok(long)) = (compile(&[format!("{g} > [+stress]")]), compile(&[format!("{} > [+stress]", group_matrix(g))])) else { rep.violation(format!("group-letter:{g}:one-form-is-rejected"), || json!({"case": {"family": format!("group-letter:{g}"), "short": [format!("{g} > [+stress]")], "long": [format!("{} > [+stress]", group_matrix(g))], "words": []}})); continue };
         for (k, (t, w)) in segs.iter().enumerate() {
